@@ -5,7 +5,11 @@ from props.progs import replay  # noqa
 GEN = 'flow'
 RULE = ("programs of nested 如果/再如/否则, 每当 (counter incremented first, so every loop terminates), 遍历 over list and dictionary "
         "literals with 0/1/2 loop variables, 结束循环/继续循环/输出 at random depths inside and outside methods, a 显示 marker between "
-        "control transfers; conditions depend on loop counters and loop variables. Non-trivial = the program contains a loop and a "
+        "control transfers; conditions depend on loop counters and loop variables; 每当/如果/再如 conditions with an observable effect "
+        "(（记：n、cond） displays n at every evaluation) and 每当 conditions that can be evaluated for exactly K passes (index into a K-item "
+        "list, key looked up through it, division by K - 计) whose last pass leaves by 输出 / 结束循环 / not at all; calls of earlier "
+        "methods from inside loops and branches; uncaught 抛出 at random depths (in half of the programs); five hand-written programs "
+        "head the stream. Non-trivial = the program contains a loop and a "
         "control transfer (输出/结束循环/继续循环) and displays at least one marker.")
 ASSUMPTIONS = ["non-terminating programs are outside the quantifier (all generated loops are bounded by construction)"]
 PARTIAL = "object methods and handlers are C08/C09's"
@@ -14,6 +18,6 @@ PARTIAL = "object methods and handlers are C08/C09's"
 def run(ctx):
     g = progs.G(ctx.rng)
     n = ctx.n(2000, 50000)
-    ps = [g.flow_program(ctx.rng.choice([2, 3, 3, 4])) for _ in range(n)]
+    ps = progs.hand_flow() + [g.flow_program(ctx.rng.choice([2, 3, 3, 4])) for _ in range(n)]
     progs.run_stream(ctx, 'flow', ps, nontrivial=lambda src, go: ('每当' in src or '遍历' in src) and
                      any(k in src for k in ('输出', '结束循环', '继续循环')) and not go.endswith('| -'))
